@@ -44,6 +44,10 @@ BadRelay(e) ==
   ELSE T(~Eq(t, e.p2, e.p1) /\ ~OnlyTrailingNulDiff(t, e.p2, e.p1), "C11.unstable")
        \cup T(OnlyTrailingNulDiff(t, e.p2, e.p1), "C11.unstable.binary_trailing_nul")
        \cup T(IsCanonical(t, e.b0) /\ ~Conforms(t, RefDecode(t, e.b0).p, e.b1), "C11.canonical")
+       \* an object that has held another PDU before relays the image like a fresh one
+       \* (optional parameters come out of a map: their order may differ between two encodes, Conforms allows that)
+       \cup T(e.u # "skip" /\ (e.u # "ok" \/ (e.b1u # e.b1 /\ (~RefDecode(t, e.b1).ok \/ ~Conforms(t, RefDecode(t, e.b1).p, e.b1u)))),
+              "C11.used_object")
 
 BadFuzz(e) ==
   IF e.outcome = "skipped" THEN {} ELSE
